@@ -141,8 +141,15 @@ def source(case):
     kind = case['kind']
     head = 'async def' if kind in ('agen', 'coro') else 'def'
     ann = case['ret']
-    sig = '%s f(log, io, n: int = 1)%s:' % (head, (' -> ' + ann) if ann else '')
-    lines = [sig]
+    if case.get('closure'):
+        # the decorated callable is a functools.wraps closure with the signature (*args, **kwargs) around a plain function of
+        # another kind (asyncify / generator adapters): its kind is the closure's, its hints are the wrapped function's
+        lines = ['import functools', 'def _inner(log, io, n: int = 1) -> object:', '    return None',
+                 '@functools.wraps(_inner)', '%s f(*args, **kwargs):' % head,
+                 '    log, io, n = (tuple(args) + (kwargs.get("n", 1),))[:3]']
+    else:
+        sig = '%s f(log, io, n: int = 1)%s:' % (head, (' -> ' + ann) if ann else '')
+        lines = [sig]
     if kind in ('gen', 'agen'):
         lines.append('    if n < 0:')
         lines.append('        yield None')
@@ -216,6 +223,9 @@ def generate(rng, run, tier):
     kind = rng.choice(['gen', 'agen', 'agen', 'coro', 'coro'])
     case = {'kind': kind, 'body': gen_body(rng, kind), 'ret': rng.choice(RET_ANNS[kind]),
             'is_debug': rng.random() < 0.05}
+    if rng.random() < 0.1:
+        case['closure'] = True
+        case['ret'] = None
     if kind == 'gen' or rng.random() < 0.5:
         case['driver'] = 'protocol'
         case['ops'] = gen_ops(rng, kind)
